@@ -81,8 +81,7 @@ VReal(kind, field) ==
                                                    "kwarg", "defaults"}
     [] field = "_args"                         -> {"args", "keywords"}
     [] field = "_bases"                        -> {"bases", "keywords"}
-    [] field = "_attrs"                        -> {"kwd_attrs", "kwd_patterns"}
-    [] field = "_patterns"                     -> {"patterns", "kwd_attrs", "kwd_patterns"}
+    [] field = "_attrs"                        -> {"patterns", "kwd_attrs", "kwd_patterns"}
     [] OTHER -> {field}
 
 (* element sequences of the position-independent virtual fields              *)
@@ -93,9 +92,8 @@ VFieldSeq(x, field) ==
     [] field = "_all" /\ Kind(x) = "MatchMapping" ->
          Zip2(FieldSeq(x, "keys"), FieldSeq(x, "patterns"))
            \o (IF FieldSeq(x, "rest") = <<0>> THEN <<>> ELSE <<<<FieldSeq(x, "rest")[1]>>>>)
-    [] field = "_attrs" -> Zip2(FieldSeq(x, "kwd_attrs"), FieldSeq(x, "kwd_patterns"))
-    [] field = "_patterns" -> Wrap1(FieldSeq(x, "patterns"))
-                                \o Zip2(FieldSeq(x, "kwd_attrs"), FieldSeq(x, "kwd_patterns"))
+    [] field = "_attrs" -> Wrap1(FieldSeq(x, "patterns"))
+                             \o Zip2(FieldSeq(x, "kwd_attrs"), FieldSeq(x, "kwd_patterns"))
     [] OTHER -> Wrap1(FieldSeq(x, field))
 
 (* position-merged virtual fields (Call._args, ClassDef._bases) need the     *)
